@@ -1028,14 +1028,14 @@ class Atoms:
         tree = ET.parse(f)
         root = tree.getroot()
 
-        atom_dicts = [a.attrib for a in root.findall('.//atom')]
+        atom_dicts = [a.attrib for a in root.findall('.//{*}atom')]
         atom_tuples = [(a['id'], a['elementType'],
                        float(a['x3']), float(a['y3']), float(a['z3'])) for a in atom_dicts]
         ids, elements, x, y, z = zip(*atom_tuples)
         id_to_idx = {id:i for i, id in enumerate(ids)}
         positions = np.array([x,y,z]).T
 
-        bond_dicts = [a.attrib for a in root.findall('.//bond')]
+        bond_dicts = [a.attrib for a in root.findall('.//{*}bond')]
         bond_tuples = [(a['atomRefs2'].split(), float(a['order'])) for a in bond_dicts]
         bonds_by_ids = [b for b, _ in bond_tuples]
         bonds = [(id_to_idx[b1], id_to_idx[b2]) for (b1,b2) in bonds_by_ids]
